@@ -27,7 +27,7 @@ def classify(rc, err):
     return 'diag', err.strip()[-120:]
 
 
-def run_w2c2(w2c2, wd, data, opts, refdata=None, timeout=120, name='m'):
+def run_w2c2(w2c2, wd, data, opts, refdata=None, timeout=120, name='m', outname=None):
     wasm = os.path.join(wd, name + '.wasm')
     with open(wasm, 'wb') as f:
         f.write(data)
@@ -37,7 +37,7 @@ def run_w2c2(w2c2, wd, data, opts, refdata=None, timeout=120, name='m'):
         with open(ref, 'wb') as f:
             f.write(refdata if refdata is not None else data)
         args[args.index('-r') + 1] = ref
-    out = os.path.join(wd, 'out', name + '.c')
+    out = os.path.join(wd, 'out', outname if outname is not None else name + '.c')
     os.makedirs(os.path.join(wd, 'out'), exist_ok=True)
     try:
         r = subprocess.run([w2c2] + args + [wasm, out], stdout=subprocess.PIPE, stderr=subprocess.PIPE, timeout=timeout, env=ENV, cwd=wd)
@@ -133,7 +133,12 @@ def work_valid(job):
     try:
         for o in optsets:
             shutil.rmtree(os.path.join(wd, 'out'), ignore_errors=True)
-            kind, msg = run_w2c2(w2c2, wd, data, o, refdata=refdata)
+            outname = None
+            if o and o[0].startswith('OUT='):      # pseudo option: the name of the output file
+                outname, o = o[0][4:], o[1:]
+            kind, msg = run_w2c2(w2c2, wd, data, o, refdata=refdata, outname=outname)
+            if outname is not None:
+                o = ['output file name %r' % (outname if len(outname) < 40 else outname[:20] + '...(%d characters)' % len(outname))] + o
             res.append((o, kind, msg))
     finally:
         shutil.rmtree(wd, ignore_errors=True)
@@ -198,6 +203,10 @@ def main(tier):
         for rlabel, rd in reference_variants(d):
             osets = [['-r', 'REF', '-f', str(f), '-t', str(t)] + extra for f in (0, 1, 2) for t in (1, 3) for extra in ([], ['-g'], ['-c'])]
             jobs.append(('%s with reference %s' % (n, rlabel), d, osets if tier == 'thorough' else osets[::2], w2c2, rd))
+    # output file names: without extension, ending in a dot, several dots, one character, long (header and module names are derived from it)
+    outnames = ['m', 'm.', 'a.b.c', 'x', 'x.c', 'generated_module_source', 'n' * 23, 'n' * 24, 'n' * 200 + '.c', 'n' * 250]
+    for n, d in hb[1:2]:
+        jobs.append((n, d, [['OUT=' + on] + extra for on in outnames for extra in ([], ['-f', '1', '-t', '2'])], w2c2))
     positions = ('export', 'import-module', 'import-field', 'name-section', 'partial-name-section', 'import-global')
     for nm in NAME_ALPHABET:
         for pos in positions:
@@ -279,7 +288,7 @@ def main(tier):
     chk.cov['prefix_runs'] = nprefix
     chk.cov['prefix_run_classes'] = pclasses
     chk.cov['rule'] = ('(a) every valid module of the corpus (spec-suite modules, hand-built, name-stress: 20 names x 4 positions, size-stress: 5) x option sets '
-                       '(8 representative sets each; the full 384-element option product on the hand-built modules; the hand-built modules with -r references that share all / some / no function bodies x split output) must exit 0 without signal or sanitizer report; '
+                       '(8 representative sets each; the full 384-element option product on the hand-built modules; the hand-built modules with -r references that share all / some / no function bodies x split output; 10 output file names without / with odd extensions) must exit 0 without signal or sanitizer report; '
                        '(b) fault points = every proper prefix 0<k<len of every module <= 4 KiB (boundary +-2 for larger), modules with a name section also under -g (thorough: + -g -f 1 -t 2, -g -p -m), and every proper prefix used as the -r REFERENCE module next to the complete module: terminates, no sanitizer report, no '
                        'SIGSEGV/SIGBUS/SIGFPE/SIGILL; own abort()/assert on a truncated file is tolerated and counted. distinct_nontrivial = (module, k) whose '
                        'termination class or diagnostic differs from that of prefix k-1, plus distinct (module, option-set-group) jobs')
